@@ -78,7 +78,7 @@ func programVerdict(s runner.Status) bool {
 func runC15(res *Result, d *Driver, tier string, seed uint64) {
 	res.Rule = "part A: real Context.GetString on this process' own memory (regions with PROT_NONE holes; strings at end-of-page±2, unterminated 4095/4096/4097/8192 bytes, NUL at 0, unmapped/odd addresses) vs Model.GetString.getString; " +
 		"part A': real clen/hasNull on random buffers vs the Go-lite evaluation of the regenerated functions and the hand model; " +
-		"part B: hostile probe scripts under the real ptrace runner with a file-tracing filter (garbage pointers, 64-bit garbage in int args, unknown/x32/negative syscall numbers, unreadable open_how, threads racing exit_group; the main process ending while forked children still run, vfork parents, names leading into symlink cycles — the run must return within 15 s): verdict must be about the program, never Runner Error. " +
+		"part B: hostile probe scripts under the real ptrace runner with a file-tracing filter (garbage pointers, 64-bit garbage in int args, unknown/x32/negative syscall numbers, unreadable open_how, threads racing exit_group; the main process ending while forked children still run, vfork parents, names leading into symlink cycles, FIFOs / sockets / directories / devices made by the program and handed to execve, open, stat, readlink — the run must return within 15 s): verdict must be about the program, never Runner Error. " +
 		"non-trivial = not the plain NUL-terminated in-page case; distinct = distinct (layout,address) / buffer / script."
 	rng := NewRng(seed, "C15", 1)
 	pg := ptracer.VerifPageSize()
@@ -344,6 +344,14 @@ func runC15(res *Result, d *Driver, tier string, seed uint64) {
 		"symlink loop1 loop1;sys 2 s:loop1 0;sys 4 s:loop1/x bad;exit 0",
 		"symlink pb pa;symlink pa pb;sys 2 s:pa 0;sys 257 fdcwd64 s:pb/y 0 0;exit 0",
 		"mkdir dd;symlink dd/../dl dl;sys 2 s:dl 0;sys 2 s:dl/z 0;exit 0",
+		// special files the program made itself, handed to every kind of path-taking call (the kernel answers at once:
+		// EACCES / ENOEXEC / ENXIO; whoever looks at such a file on the program's behalf must not wait for it)
+		"mkfifo ff;sys 59 s:ff 0 0;sys 4 s:ff bad;sys 2 s:ff 0x800;sys 89 s:ff bad 0;exit 0",
+		"mkfifo ff2;sys 322 fdcwd64 s:ff2 0 0 0;sys 21 s:ff2 4;exit 0",
+		"mksock sk;sys 59 s:sk 0 0;sys 2 s:sk 0;sys 4 s:sk bad;exit 0",
+		"mkdir dd2;sys 59 s:dd2 0 0;sys 2 s:dd2 1;exit 0",
+		"sys 59 s:/dev/null 0 0;sys 59 s:/dev/zero 0 0;sys 59 s:/proc/self/mem 0 0;exit 0",
+		"mkfifo ff3;symlink ff3 lf3;sys 59 s:lf3 0 0;chmod ff3 777;sys 59 s:ff3 0 0;exit 0",
 	)
 	lingerDir, _ := os.MkdirTemp("", "verif-c15-links-")
 	defer os.RemoveAll(lingerDir)
